@@ -1345,6 +1345,11 @@ ares_status_t ares_send_query(ares_server_t *requested_server,
       return status;
   }
 
+  /* The query is on the wire (or queued on the connection) now, account for it
+   * right away so the per-connection limit (udp_max_queries) also holds if one
+   * of the steps below fails */
+  conn->total_queries++;
+
   timeplus = ares_calc_query_timeout(query, server, now);
   /* Keep track of queries bucketed by timeout, so we can process
    * timeout events quickly.
@@ -1376,7 +1381,6 @@ ares_status_t ares_send_query(ares_server_t *requested_server,
   }
 
   query->conn = conn;
-  conn->total_queries++;
 
   /* We just successfully enqueud a query, see if we should probe downed
    * servers. */
